@@ -1,6 +1,196 @@
-"""placeholder"""
-ASSUMPTIONS = []
+"""C10: the generated wrappers of the two string libraries (gen/libs/strs.yaml, cstrs.yaml) under the
+generic wrapper harness, and the native (ASan/UBSan) replay of wrapper witnesses."""
+import os
+import re
+
+from harness import ll_common as lc
+from harness import wrapsym
+
+BUILD_KEYS = {"c++": ("strs.yaml", "strs.hpp"), "c": ("cstrs.yaml", "cstrs.h")}
+ASSUMPTIONS = [
+    "wrappers: the wrapped library function is a nondeterministic stub; it reads NUL-terminated strings (a non-terminated argument is reported as an out-of-bounds read), writes NUL-terminated replies that fit the object it was given, returns NULL or a NUL-terminated string of length <= capacity; std::string replies contain no NUL",
+    "wrappers: caller buffers are exact-fit objects of the given len (or len_trim when only that is passed)",
+    "native replay of a wrapper witness: the generated wrapper is compiled with a recording stub library and a driver built from the witness under ASan/UBSan; its observable results must equal the symbolic run's",
+]
+
+
 def specs(cap, langs):
-    return [], []
+    out, labels = [], []
+    for lang in langs:
+        key = BUILD_KEYS[lang]
+        b = lc.get_build(key)
+        infos = wrapsym.collect(b)
+        for cname in sorted(infos):
+            info = infos[cname]
+            kinds = [p.kind() for p in info.params] + ([info.result.kind()] if info.result else [])
+            if any(k in ("vector", "class", "struct") for k in kinds):
+                continue
+            out.append(("harness.wrapsym", "make", dict(build_key=list(key), cname=cname, cap=cap)))
+            labels.append("wrapper %s (%s)" % (cname, lang))
+    return out, labels
+
+
+# ---------------------------------------------------------------------------- native replay
+def header_prototypes(text):
+    """hand-written library header: name -> (ret text, [(type text, name)])"""
+    out = {}
+    for m in re.finditer(r"(?m)^([\w:&\*<> ]+?)\b(\w+)\s*\(([^;()]*)\)\s*;", text):
+        ret, name, params = m.group(1).strip(), m.group(2), m.group(3).strip()
+        plist = []
+        if params and params != "void":
+            for p in params.split(","):
+                mm = re.match(r"^(.*?)(\w+)$", p.strip())
+                plist.append((mm.group(1).strip(), mm.group(2)))
+        out[name] = (ret, plist)
+    return out
+
+
+def c_array(name, bs):
+    return "static unsigned char %s[] = {%s};" % (name, ",".join(str(b) for b in (bs or [0])))
+
+
 def replay_wrapper(w):
-    return None
+    """Returns verdict text (violation reproduced) or None."""
+    key = tuple(w["build"])
+    b = lc.get_build(key)
+    infos = wrapsym.collect(b)
+    info = infos.get(w["function"])
+    if info is None:
+        return None
+    cxx = key[0] == "strs.yaml" or key[1].endswith(".hpp")
+    hdr_text = lc.lib_text(key[1])
+    protos = header_prototypes(hdr_text)
+    if info.cxx_name not in protos:
+        return None
+    ret_t, plist = protos[info.cxx_name]
+    reps = w.get("library_replies", {})
+    inputs = w["inputs"]
+    L = []
+    L.append('#include <stdio.h>\n#include <stdlib.h>\n#include <string.h>\n')
+    if cxx:
+        L.append('#include <string>\n')
+    L.append('#include "%s"\n#include "%s"\n' % (key[1], [n for n in b.files if n.startswith("wrap") and n.endswith(".h") and not n.startswith("wrapf")][0]))
+    L.append("static char *xalloc(long n) { char *b = (char *) malloc(n > 0 ? n : 1); return n > 0 ? b : b + 1; }\n")
+    L.append("static void xfree(char *p, long n) { free(n > 0 ? p : p - 1); }\n")
+    L.append('static void dump(const char *tag, const unsigned char *p, long n) { printf("%s", tag); for (long i = 0; i < n; i++) printf(" %d", p[i]); printf("\\n"); }\n')
+    # ---- stub library function
+    body = []
+    for (pt, pn), p in zip(plist, info.params):
+        kind = p.kind()
+        if kind == "charp" and p.intent in ("in", "inout"):
+            body.append('dump("recv:%s", (const unsigned char *) %s, (long) strlen(%s));' % (pn, pn, pn))
+        elif kind == "string" and p.intent in ("in", "inout"):
+            acc = "%s->" % pn if p.nptr else "%s." % pn
+            body.append('dump("recv:%s", (const unsigned char *) %sdata(), (long) %ssize());' % (pn, acc, acc))
+        rk = "reply:" + pn
+        if rk in reps:
+            body.append(c_array("rep_" + pn, reps[rk]))
+            n = len(reps[rk])
+            if kind == "charp":
+                body.append("memcpy(%s, rep_%s, %d); %s[%d] = 0;" % (pn, pn, n, pn, n))
+            elif kind == "string":
+                tgt = "*%s" % pn if p.nptr else pn
+                body.append("%s = std::string((const char *) rep_%s, %d);" % (tgt, pn, n))
+    rp = info.result
+    if rp is not None:
+        kind = rp.kind()
+        if kind == "scalar":
+            body.append("return (%s) %d;" % (ret_t, reps.get("result", 0)))
+        elif kind == "charp":
+            if reps.get("result_null"):
+                body.append("return NULL;")
+            else:
+                rs = reps.get("result_string", [])
+                body.append("static char resbuf[%d];" % (len(rs) + 1))
+                body.append(c_array("rep_res", rs))
+                body.append("memcpy(resbuf, rep_res, %d); resbuf[%d] = 0; return resbuf;" % (len(rs), len(rs)))
+        elif kind == "string":
+            rs = reps.get("result_string", [])
+            body.append(c_array("rep_res", rs))
+            if rp.nptr:
+                body.append("return new std::string((const char *) rep_res, %d);" % len(rs))
+            elif rp.ref:
+                body.append("static std::string keep; keep = std::string((const char *) rep_res, %d); return keep;" % len(rs))
+            else:
+                body.append("return std::string((const char *) rep_res, %d);" % len(rs))
+    L.append("%s %s(%s)\n{\n    %s\n}\n" % (ret_t, info.cxx_name, ", ".join("%s %s" % x for x in plist), "\n    ".join(body)))
+    # the other library functions the generated file refers to: empty definitions are not needed when only
+    # this wrapper is linked, so every other prototype gets a trivial body
+    for name, (rt_, pl) in protos.items():
+        if name == info.cxx_name:
+            continue
+        L.append("%s %s(%s) { %s }\n" % (rt_, name, ", ".join("%s %s" % x for x in pl),
+                                        "abort();" if rt_ == "void" else "abort(); %s" % ("static std::string s; return s;" if "std::string" in rt_ and "*" not in rt_ else "return 0;")))
+    # ---- driver
+    M = ["int main(void) {"]
+    call_args = []
+    dumps = []
+    for (cty, cn), (role, p) in zip(info.cparams, info.roles()):
+        key2 = p.name if p is not None else "@result"
+        if role in ("len", "len_trim", "res_len", "res_len_trim", "size"):
+            call_args.append(str(inputs["%s:%s" % (role.replace("res_", ""), key2)]))
+        elif role in ("context", "res_context"):
+            M.append("%s ctx_%d; memset(&ctx_%d, 0x5a, sizeof ctx_%d);" % (cty.replace("*", "").strip(), len(call_args), len(call_args), len(call_args)))
+            call_args.append("&ctx_%d" % len(call_args))
+        elif role == "res_buf" or (role == "arg" and ("buf:" + key2) in inputs):
+            d = inputs["buf:" + key2]
+            nm = "b_%d" % len(call_args)
+            M.append(c_array(nm + "_init", d["bytes"][:max(d["size"], 1)]).replace("static ", ""))
+            M.append("char *%s = xalloc(%d); memcpy(%s, %s_init, %d);" % (nm, d["size"], nm, nm, min(d["size"], len(d["bytes"]))))
+            call_args.append(nm)
+            dumps.append('dump("buf:%s", (const unsigned char *) %s, %d); xfree(%s, %d);' % (key2, nm, min(d["size"], len(d["bytes"])), nm, d["size"]))
+        elif role == "arg" and ("scalar:" + key2) in inputs:
+            v = inputs["scalar:" + key2]
+            if "double" in cty or "float" in cty:
+                # opaque bit pattern
+                M.append("%s sv_%d; { unsigned long long bits = %dULL; memcpy(&sv_%d, &bits, sizeof sv_%d); }" % (cty, len(call_args), v & 0xFFFFFFFFFFFFFFFF, len(call_args), len(call_args)))
+                call_args.append("sv_%d" % len(call_args))
+            else:
+                call_args.append("(%s) %d" % (cty, int(v)))
+        else:
+            return None
+    call = "%s(%s)" % (info.cname, ", ".join(call_args))
+    if info.ret_c.strip() != "void" and "*" not in info.ret_c:
+        M.append('long long rv = (long long) %s; printf("ret %%lld\\n", rv);' % call)
+    else:
+        M.append(call + ";")
+    M += dumps
+    M.append("return 0; }")
+    L.append("\n".join(M) + "\n")
+    src = {"driver.cpp" if cxx else "driver.c": "".join(L)}
+    for n, t in b.files.items():
+        if n.endswith((".h", ".hpp")) or (n.startswith("wrap") and n.endswith((".c", ".cpp"))):
+            src[n] = t
+    src[key[1]] = hdr_text
+    rc, out = lc.run_native(src, cxx=cxx)
+    if rc == -999:
+        return None
+    san = re.search(r"(AddressSanitizer: [\w-]+|runtime error: [^\n]+|LeakSanitizer: [\w ]+)", out)
+    if san:
+        return "sanitizer: " + san.group(1)
+    obs = w.get("observed", {})
+    got = {}
+    for line in out.splitlines():
+        parts = line.split()
+        if not parts:
+            continue
+        if parts[0] == "ret":
+            got["ret"] = int(parts[1])
+        elif ":" in parts[0]:
+            got[parts[0]] = [int(x) for x in parts[1:]]
+    agree = True
+    for k, v in obs.items():
+        if k == "ret":
+            bits = 32
+            a, c = got.get("ret"), v
+            if a is None or (a - c) % (1 << bits) != 0:
+                agree = False
+        elif k in got:
+            n = min(len(got[k]), len(v))
+            if got[k][:n] != v[:n]:
+                agree = False
+    if not agree:
+        # the native build behaves differently from the symbolic run: the encoding is wrong, not the code
+        return None
+    return "native run reproduces the symbolic run's observables %s, which violate: %s" % (
+        {k: got.get(k) for k in obs}, w.get("what"))
